@@ -101,7 +101,7 @@ func VerifC25_cooperativeSticky() {
 		in = verifBalShape(1, 2, []int{2, 2}, true, false, false)
 		in.verifBalClaims()
 	} else {
-		in = verifBalShape(2, 2, []int{2, 1}, false, false, true)
+		in = verifBalShapeN(2, 2, []int{1, 0}, []int{2, 1}, false, false, true)
 		in.verifBalOwnerClaims(true)
 	}
 	in.verifBalance(CooperativeStickyBalancer(), nil, "cooperative-sticky", true)
@@ -126,7 +126,7 @@ func VerifC25_cooperativeSticky3() {
 // VerifC25_stickyRacksWrapper: rack information flows from member metadata and the
 // balancer's partition racks into sticky.BalanceWithRacks.
 func VerifC25_stickyRacksWrapper() {
-	in := verifBalShape(2, 2, []int{2, 1}, false, false, true)
+	in := verifBalShapeN(2, 2, []int{1, 1}, []int{2, 1}, false, false, true)
 	racks := [...]string{"", "a", "b"}
 	in.racks[0] = racks[verifBalPick(2)]
 	in.racks[1] = racks[verifBalPick(3)]
